@@ -205,7 +205,7 @@ func init() {
 			return nil
 		},
 		"verifYield": func(fr *frame, args []value) value {
-			fr.i.block(nil, "yield")
+			fr.i.yield()
 			return nil
 		},
 		"verifLog": func(fr *frame, args []value) value {
